@@ -45,6 +45,18 @@ func addNamesakes(t *rapid.T, a *World) (idx int, ok bool) {
 
 func genC17(t *rapid.T) *C17Case {
 	a := genAnyWorld(t)
+	// the generic namesake twin (bare Pod next to a controller workload of the same name) is dropped here: re-expressing
+	// the twin as a controller kind IS the recorded finding F-C17-1; this check has its own namesakes (addNamesakes)
+	seenNN := map[string]bool{}
+	kept := a.Workloads[:0]
+	for _, wl := range a.Workloads {
+		if seenNN[wl.Ns+"/"+wl.Name] {
+			continue
+		}
+		seenNN[wl.Ns+"/"+wl.Name] = true
+		kept = append(kept, wl)
+	}
+	a.Workloads = kept
 	nsake, hasNsake := -1, false
 	if rapid.IntRange(0, 4).Draw(t, "namesakes") == 0 {
 		nsake, hasNsake = addNamesakes(t, a)
